@@ -678,8 +678,15 @@ impl Wal {
     }
 
     pub fn replay_committed_from_path(path: impl AsRef<Path>) -> Result<Vec<CommittedTx>> {
+        Ok(Self::replay_committed_with_len(path)?.0)
+    }
+
+    /// Like `replay_committed_from_path`, and also returns the offset just behind the last
+    /// committed transaction (everything after it is an unusable tail).
+    pub fn replay_committed_with_len(path: impl AsRef<Path>) -> Result<(Vec<CommittedTx>, u64)> {
         let mut reader = WalReader::open(path.as_ref())?;
         let mut out: Vec<CommittedTx> = Vec::new();
+        let mut committed_len = 0u64;
 
         let mut current_txid: Option<u64> = None;
         let mut pending: Vec<WalRecord> = Vec::new();
@@ -699,6 +706,7 @@ impl Wal {
                         ops: std::mem::take(&mut pending),
                     });
                     current_txid = None;
+                    committed_len = reader.offset;
                 }
                 other => {
                     if current_txid.is_none() {
@@ -709,7 +717,25 @@ impl Wal {
             }
         }
 
-        Ok(out)
+        Ok((out, committed_len))
+    }
+
+    /// Cuts off everything behind `len`. Appends go to the end of the file, so a torn or
+    /// garbage tail left in place would hide every later transaction from the reader.
+    pub fn truncate_to(&mut self, len: u64) -> Result<()> {
+        let Some(file) = self.file.as_mut() else {
+            return Err(Error::WalProtocol("wal file is closed"));
+        };
+        if file.metadata()?.len() > len {
+            #[cfg(luqing_studio_nervusdb_verif)]
+            {
+                vh::io(vh::IoKind::SetLen, &self.path, None, len, &[])?;
+                vh::io(vh::IoKind::Sync, &self.path, None, 0, &[])?;
+            }
+            file.set_len(len)?;
+            file.sync_data()?;
+        }
+        Ok(())
     }
 
     pub(crate) fn latest_checkpoint_info(&self) -> Result<Option<(u64, u64)>> {
